@@ -303,6 +303,123 @@ class SymStr(str):
         return o
 
 
+def _hashable(k):
+    try:
+        hash(k)
+        return True
+    except Unsupported:
+        return False
+    except TypeError:
+        return True  # a genuine TypeError (unhashable type) is Python's own behaviour: let the native dict raise it
+
+
+class SymKeyDict(dict):
+    """A dict created by interpreted code.  Keys that hash natively live in the dict itself; keys containing symbolic
+    values (e.g. a frozen dataclass with symbolic fields) live in an association list and are compared with the
+    solver-decided `==` (forking on equality), against *all* keys."""
+
+    def __init__(self, *a, **k):
+        dict.__init__(self, *a, **k)
+        self.syms = []
+
+    def _find(self, interp, key):
+        """-> ("native", key) | ("sym", index) | None"""
+        hk = _hashable(key)
+        if hk and dict.__contains__(self, key):
+            return ("native", key)
+        for i, (k2, _v) in enumerate(self.syms):
+            if k2 is key or interp.truth(interp.compare(ast.Eq(), k2, key)):
+                return ("sym", i)
+        if not hk:
+            for k2 in list(dict.keys(self)):
+                if type(k2) is type(key) or isinstance(k2, IObj) and isinstance(key, IObj):
+                    if interp.truth(interp.compare(ast.Eq(), k2, key)):
+                        return ("native", k2)
+        return None
+
+    def _pyvc_getitem(self, interp, key):
+        if not self.syms and _hashable(key):
+            return NotImplemented
+        f = self._find(interp, key)
+        if f is None:
+            raise PyExc(KeyError, (key,))
+        return dict.__getitem__(self, f[1]) if f[0] == "native" else self.syms[f[1]][1]
+
+    def _pyvc_setitem(self, interp, key, v):
+        if not self.syms and _hashable(key):
+            return NotImplemented
+        f = self._find(interp, key)
+        if f is None:
+            if _hashable(key):
+                dict.__setitem__(self, key, v)
+            else:
+                self.syms.append((key, v))
+        elif f[0] == "native":
+            dict.__setitem__(self, f[1], v)
+        else:
+            self.syms[f[1]] = (self.syms[f[1]][0], v)
+        return None
+
+    def _pyvc_contains(self, interp, key):
+        if not self.syms and _hashable(key):
+            return NotImplemented
+        return self._find(interp, key) is not None
+
+    def _pyvc_len(self, interp):
+        return dict.__len__(self) + len(self.syms)
+
+    def _pyvc_iter(self, interp):
+        return list(dict.keys(self)) + [k for k, _ in self.syms]
+
+    def _pyvc_getattr(self, interp, name):
+        if not self.syms and name not in ("get", "setdefault", "pop", "copy"):
+            return getattr(self, name)
+        if name == "get":
+            def get(key, default=None):
+                f = self._find(interp, key)
+                if f is None:
+                    return default
+                return dict.__getitem__(self, f[1]) if f[0] == "native" else self.syms[f[1]][1]
+            return get
+        if name == "setdefault":
+            def setdefault(key, default=None):
+                f = self._find(interp, key)
+                if f is None:
+                    self._pyvc_setitem(interp, key, default) is NotImplemented and dict.__setitem__(self, key, default)
+                    return default
+                return dict.__getitem__(self, f[1]) if f[0] == "native" else self.syms[f[1]][1]
+            return setdefault
+        if name == "pop":
+            def pop(key, *d):
+                f = self._find(interp, key)
+                if f is None:
+                    if d:
+                        return d[0]
+                    raise PyExc(KeyError, (key,))
+                if f[0] == "native":
+                    return dict.pop(self, f[1])
+                return self.syms.pop(f[1])[1]
+            return pop
+        if name == "copy":
+            def copy():
+                o = SymKeyDict(self)
+                o.syms = list(self.syms)
+                return o
+            return copy
+        if name == "keys":
+            return lambda: list(dict.keys(self)) + [k for k, _ in self.syms]
+        if name == "values":
+            return lambda: list(dict.values(self)) + [v for _, v in self.syms]
+        if name == "items":
+            return lambda: list(dict.items(self)) + list(self.syms)
+        if name == "clear":
+            def clear():
+                dict.clear(self)
+                self.syms = []
+            return clear
+        raise Unsupported(f"dict.{name} on a dict with symbolic keys")
+
+
 class OpaqueFn:
     """An uninterpreted function value: may be passed around and wrapped in functools.partial, never executed."""
 
@@ -1112,7 +1229,7 @@ class Interp:
         return out
 
     def e_Dict(self, n, fr):
-        d = {}
+        d = SymKeyDict()
         for k, v in zip(n.keys, n.values):
             if k is None:
                 mv = self.eval(v, fr)
@@ -1122,7 +1239,7 @@ class Interp:
                     for kk in self.iterate(self.call(self.getattr_(mv, "keys"), [], {})):
                         d[kk] = self.getitem(mv, kk)
             else:
-                d[self.eval(k, fr)] = self.eval(v, fr)
+                self.setitem(d, self.eval(k, fr), self.eval(v, fr))
         return d
 
     def e_BinOp(self, n, fr):
@@ -1229,7 +1346,9 @@ class Interp:
     def contains(self, container, item):
         h = getattr(type(container), "_pyvc_contains", None)
         if h is not None:
-            return h(container, self, item)
+            r = h(container, self, item)
+            if r is not NotImplemented:
+                return r
         if isinstance(container, IObj):
             m, _ = container.cls.lookup("__contains__")
             if m is not None:
@@ -1284,7 +1403,9 @@ class Interp:
     def getitem(self, obj, idx):
         h = getattr(type(obj), "_pyvc_getitem", None)
         if h is not None:
-            return h(obj, self, idx)
+            r = h(obj, self, idx)
+            if r is not NotImplemented:
+                return r
         if isinstance(obj, IObj):
             m, _ = obj.cls.lookup("__getitem__")
             if m is None:
@@ -1352,7 +1473,9 @@ class Interp:
     def setitem(self, obj, idx, v):
         h = getattr(type(obj), "_pyvc_setitem", None)
         if h is not None:
-            return h(obj, self, idx, v)
+            r = h(obj, self, idx, v)
+            if r is not NotImplemented:
+                return r
         if isinstance(obj, IObj):
             m, _ = obj.cls.lookup("__setitem__")
             if m is None:
@@ -1506,11 +1629,11 @@ class Interp:
         return self.make_set(out)
 
     def e_DictComp(self, n, fr):
-        out = {}
+        out = SymKeyDict()
 
         def emit(cfr):
             k = self.eval(n.key, cfr)
-            out[k] = self.eval(n.value, cfr)
+            self.setitem(out, k, self.eval(n.value, cfr))
 
         try:
             self._comp(n.generators, fr, emit)
